@@ -300,6 +300,19 @@ Theorem C04_partial_wrappers :
 Proof. exact @partial_wrappers. Qed.
 Print Assumptions C04_partial_wrappers.
 
+(* (_ f _)(a, b) = f(a, b): an operator section with both operands missing takes them left to right;
+   any other number of arguments is an argument error *)
+Theorem C04_chain_section_both :
+  forall (B C D : Type) (brun : B -> list (val B C D) -> outcome (val B C D))
+         (crun : C -> list (val B C D) -> outcome (val B C D))
+         (diter : D -> outcome (list (val B C D))) n f a b c,
+  eval brun crun diter (S n) (form_chain_sect_both f [a; b]) = run brun crun diter n f [a; b] /\
+  eval brun crun diter (S n) (form_chain_sect_both f [a]) = Err EArg /\
+  eval brun crun diter (S n) (form_chain_sect_both f []) = Err EArg /\
+  eval brun crun diter (S n) (form_chain_sect_both f [a; b; c]) = Err EArg.
+Proof. exact @chain_section_both. Qed.
+Print Assumptions C04_chain_section_both.
+
 (* _(a, _, c)(f, b): a call section whose callee is the hole, any layout of further holes *)
 Theorem C04_hole_callee :
   forall (B C D : Type) (brun : B -> list (val B C D) -> outcome (val B C D))
